@@ -152,7 +152,10 @@ class DataGen(object):
     def block_print(self):
         r = self.r
         pool = [n(7), ("var", "A"), ("str", "X"), ("var", "A$"), ("bin", "+", ("var", "A$"), ("str", "!")), n(2.5),
-                ("fn", "CHR$", [n(65)]), ("fn", "TAB", [n(r.randint(0, 12))]), ("fn", "LEN", [("var", "A$")])]
+                ("fn", "CHR$", [n(65)]), ("fn", "TAB", [n(r.randint(0, 12))]), ("fn", "LEN", [("var", "A$")]),
+                # numeric constants of every shape: fractions below one, zero, negative, many digits, hex
+                r.choice([n(0.5), n(0.25), ("num", 0.5, ["0.5"]), n(0.015625), n(0), ("un", "-", n(3)), ("un", "-", n(0.75)),
+                          n(123456), n(100.125), ("hex", 255, "FF"), ("num", 12.0, ["12."]), ("num", 7.0, ["007"])])]
         k = r.randint(0, 4)
         items = []
         if r.random() < 0.25:
@@ -303,7 +306,11 @@ def stream(events):
                 if t[0] == "s":
                     txt = t[1]
                     try:
-                        row.append(float(txt.strip().rstrip(".") or "x"))
+                        v = float(txt.strip().rstrip(".") or "x")
+                        core = txt.strip().rstrip(".")
+                        # the value, and - for plain decimal spellings - the digits as printed (Color BASIC and BASIC09
+                        # both write .5, not 0.5; a number folded into the text by some other formatter shows here)
+                        row.append((v, core) if ("E" not in core.upper() and len(core) < 12) else v)
                     except ValueError:
                         if txt != "":
                             row.append(txt)
